@@ -220,10 +220,19 @@ def discharge(ctx, s, scope=None):
                             return 'only reachable when parameter %d of %s is Some; every caller in the analysed set passes None' % (cond[1][2], tgt.path)
 
     if kind in ('int_arith:shr', 'int_arith:shl') and len(ops) == 2:
-        amt = canon(ops[1])
-        for a in known():
-            if a[0] == 'cmp' and a[1] == 'Le' and a[2] == amt and a[3].isdigit() and int(a[3]) <= 63:
-                return 'shift amount %s is at most %s on every path to the shift (dominating condition)' % (amt, a[3])
+        views = [(canon(ops[1]), known())]
+        b2, t2 = body, ops[1]
+        while b2.is_closure:
+            # conditions that hold where the closure is created hold inside it (captured values are immutable copies / shared borrows)
+            up = ctx.lift(b2, t2)
+            if up is None:
+                break
+            b2, pbb, t2 = up
+            views.append((canon(t2), path_atoms(ctx, b2, pbb)))
+        for amt, ats in views:
+            for a in ats:
+                if a[0] == 'cmp' and a[1] == 'Le' and a[2] == amt and a[3].isdigit() and int(a[3]) <= 63:
+                    return 'shift amount %s is at most %s on every path to the shift (dominating condition)' % (amt, a[3])
     if kind in ('assert:overflow:Shr', 'assert:overflow:Shl') and len(ops) == 2:
         # operands of the assert condition: Lt(amount, width)
         amt, width = ops[0], _const_int(ops[1])
